@@ -39,6 +39,14 @@ def requests(tier):
                             for per_channel in ((False, True) if dt != "uint8" else (False,)):
                                 reqs.append(dict(kind=kind, depth=depth, blk=blk, slices=sl, acc=acc, dt=dt, per_channel=per_channel, wzp=3 if dt == "uint8" else 0,
                                                  k=(1, 1) if kind == "fc" else ((3, 3) if depth != 17 else (2, 5)), ic=8 if kind != "fc" else 24, dil=(1, 1), wseed=0, bseed=0))
+    # a 1x1 convolution on a 1x1 input is rewritten to FULLY_CONNECTED by the graph optimiser: it keeps the scale derivation of
+    # the operator it came from (double product for int8/int16 convolutions)
+    for depth in (8, 17):
+        for acc in ACCS:
+            for dt in ("int8", "uint8", "int16"):
+                for per_channel in ((False, True) if dt != "uint8" else (False,)):
+                    reqs.append(dict(kind="fc", as_conv=True, depth=depth, blk=16, slices=slice_lists(depth)[0], acc=acc, dt=dt, per_channel=per_channel, wzp=3 if dt == "uint8" else 0,
+                                     k=(1, 1), ic=24, dil=(1, 1), wseed=0, bseed=0))
     return reqs
 
 
@@ -97,7 +105,9 @@ def make_op(req, shared=None):
     ofm = Tensor([1, 8, 8, depth] if kind != "fc" else [1, depth], dts[req["dt"]], "ofm")
     ofm.quantization = QuantizationParameters(scale_f32=np.float32(0.0471), zero_point=0)
     optype = {"conv": Op.Conv2DBias, "depthwise": Op.DepthwiseConv2DBias, "fc": Op.FullyConnected}[kind]
-    op = Operation(optype, "op")
+    op = Operation(Op.Conv2DBias if req.get("as_conv") else optype, "op")
+    if req.get("as_conv"):
+        op.type = Op.FullyConnected  # as convert_conv_to_fc leaves it: type rewritten, original type kept
     op.add_input_tensor(ifm)
     op.add_input_tensor(wt)
     op.add_input_tensor(bt)
@@ -126,7 +136,7 @@ def describe(t):
 def expected_scale(req, ch):
     s_in, s_out = np.float32(0.0235), np.float32(0.0471)
     s_w = np.float32(0.004 + 0.0007 * (ch % 5)) if req["per_channel"] else np.float32(0.005)
-    if req["dt"] == "uint8" or req["kind"] == "fc":
+    if req["dt"] == "uint8" or (req["kind"] == "fc" and not req.get("as_conv")):
         real = float(np.double(s_in * s_w) / np.double(s_out))
     else:
         real = float((np.double(s_in) * np.double(s_w)) / np.double(s_out))
